@@ -1,20 +1,22 @@
 #!/venv/bin/python
 """Run every seeded change (seeded/*/) against its property's check and store the outcome in
-seeded/<id>/result.json (baseline, demo with/without, detection).  usage: seed_all.py [ids...] [--tier quick]"""
+seeded/<id>/result.json (baseline, demo with/without, detection).  usage: seed_all.py [ids...] [--tier quick] [--jobs N]"""
 import json, os, subprocess, sys
 HERE = os.path.dirname(os.path.dirname(os.path.abspath(__file__)))
+jobs = 1
+if '--jobs' in sys.argv:
+    jobs = int(sys.argv[sys.argv.index('--jobs') + 1])
+    del sys.argv[sys.argv.index('--jobs'):sys.argv.index('--jobs') + 2]
 ids = [a for a in sys.argv[1:] if not a.startswith('--')]
 tier = 'quick'
 if '--tier' in sys.argv:
     tier = sys.argv[sys.argv.index('--tier') + 1]
     ids = [i for i in ids if i != tier]
-rows = []
-for d in sorted(os.listdir(os.path.join(HERE, 'seeded'))):
-    if ids and d not in ids:
-        continue
+from concurrent.futures import ThreadPoolExecutor
+
+
+def one(d):
     path = os.path.join(HERE, 'seeded', d)
-    if not os.path.exists(os.path.join(path, 'patch.diff')):
-        continue
     p = subprocess.run([sys.executable, os.path.join(HERE, 'tools', 'seed_run.py'), path, '--tier', tier],
                        stdout=subprocess.PIPE, stderr=subprocess.STDOUT, text=True)
     txt = p.stdout[p.stdout.index('{'):] if '{' in p.stdout else '{}'
@@ -25,8 +27,31 @@ for d in sorted(os.listdir(os.path.join(HERE, 'seeded'))):
     r['tier'] = tier
     r['repo_head'] = subprocess.check_output(['git', '-C', '/repo', 'log', '--format=%h', '-1'], text=True).strip()
     json.dump(r, open(os.path.join(path, 'result.json'), 'w'), indent=1)
+    # the confirmation asked for by the brief, kept next to the agent's own account
+    mp = os.path.join(path, 'meta.json')
+    if os.path.exists(mp):
+        meta = json.load(open(mp))
+        meta['breaks_property'] = meta.get('property')
+        meta['confirmed_in_scratch_copy'] = {
+            'how': 'tools/seed_run.py: /repo working tree copied to /dev/shm, patch applied with git apply; pinned '
+                   'test-suite via tools/baseline.sh; demo.py run without and with the patch; the property check run '
+                   'with SISMIC_SRC pointing at the copy',
+            'repo_head': r['repo_head'], 'baseline_with_patch': r.get('baseline'),
+            'demo_exit_without_patch': r.get('demo_without_patch_rc'),
+            'demo_exit_with_patch': r.get('demo_with_patch_rc'),
+            'checks': {k: {'detected': v.get('detected'), 'tier': tier, 'wall_s': v.get('wall_s')}
+                       for k, v in r.get('checks', {}).items()}}
+        json.dump(meta, open(mp, 'w'), indent=1)
     det = {k: v.get('detected') for k, v in r.get('checks', {}).items()}
     row = (d, r.get('apply_rc'), r.get('demo_without_patch_rc'), r.get('demo_with_patch_rc'), r.get('baseline'), det)
-    rows.append(row)
     print('%-8s apply=%s demo(without,with)=(%s,%s) %s detected=%s' % row)
     sys.stdout.flush()
+    return row
+
+
+todo = [d for d in sorted(os.listdir(os.path.join(HERE, 'seeded')))
+        if (not ids or d in ids) and os.path.exists(os.path.join(HERE, 'seeded', d, 'patch.diff'))]
+with ThreadPoolExecutor(jobs) as ex:
+    rows = list(ex.map(one, todo))
+bad = [r for r in rows if r[1] != 0 or r[2] != 0 or r[3] != 1 or r[4] != 'BASELINE-OK' or not all(r[5].values())]
+print('%d seeds, %d not fully confirmed/detected: %s' % (len(rows), len(bad), [r[0] for r in bad]))
